@@ -25,6 +25,12 @@ func (processor *Processor) Process(data []byte, context *base.DataProcessorCont
 		logger.Debugln("Has pattern")
 		newData, err := processor.decryptor.Process(data, context)
 		if err != nil || bytes.Equal(newData, data) {
+			if !processor.decryptor.MatchDataSignature(data) {
+				// bytes that only look like a container header (for example inside the plaintext part of a masked value)
+				// are not the protected part of the value: leave them as they are instead of replacing them with the pattern
+				logger.Debugln("Not a crypto envelope, skip masking")
+				return newData, err
+			}
 			logger.Debugln("Mask data")
 			return []byte(setting.GetMaskingPattern()), nil
 		}
